@@ -665,6 +665,15 @@ def simplify_boolean_expressions_symmath(source: str) -> str:
             yield node, simplified
 
 
+def _constant_int(node: ast.AST) -> int | None:
+    """Value of an integer literal, including negative ones like -1. None if it is something else."""
+    if core.match_template(node, ast.Constant(value=int)):
+        return node.value
+    if core.match_template(node, ast.UnaryOp(op=ast.USub, operand=ast.Constant(value=int))):
+        return -node.operand.value
+    return None
+
+
 @processing.fix
 def simplify_constrained_range(source: str) -> str:
     root = core.parse(source)
@@ -695,20 +704,7 @@ def simplify_constrained_range(source: str) -> str:
         else:
             continue
 
-        if core.match_template(args[0], ast.Constant(value=int)):
-            start = args[0].value
-        else:
-            start = None
-
-        if core.match_template(args[1], ast.Constant(value=int)):
-            stop = args[1].value
-        else:
-            stop = None
-
-        if core.match_template(args[2], ast.Constant(value=int)):
-            step = args[2].value
-        else:
-            step = None
+        start, stop, step = (_constant_int(arg) for arg in args)
 
         target_name = comp.target.id
 
@@ -762,6 +758,11 @@ def simplify_constrained_range(source: str) -> str:
         if step != 1:
             # Raising start to a bound is only equivalent if every integer after it is visited;
             # range(0, 10, 2) if x > 2 is not range(3, 10, 2).
+            continue
+
+        if start is None or stop is None:
+            # A bound that is not a constant can be smaller or larger than the compared value;
+            # range(n) if x < 3 is neither range(3) nor range(n).
             continue
 
         redundant_conditions = set()
